@@ -16,14 +16,16 @@ MANIFEST = dict(
 
 BOUNDS = {   # name -> constants
     "seq-s": dict(Mode='"seq"', Seqs="{1, 2, 3}", Sizes="{1, 2}", MaxSlots=2, MaxBytes=4, LiveSizes="{1}", ResetOnEmpty="TRUE"),
+    "seq-b": dict(Mode='"seq"', Seqs="{1, 2, 3}", Sizes="{1, 2}", MaxSlots=3, MaxBytes=3, LiveSizes="{1}", ResetOnEmpty="TRUE"),
     "off-s": dict(Mode='"off"', Seqs="{1, 2, 3}", Sizes="{1, 2}", MaxSlots=3, MaxBytes=4, LiveSizes="{1}", ResetOnEmpty="TRUE"),
     "offn-s": dict(Mode='"off"', Seqs="{1, 2, 3}", Sizes="{1, 2}", MaxSlots=3, MaxBytes=5, LiveSizes="{1}", ResetOnEmpty="FALSE"),
     "off-q": dict(Mode='"off"', Seqs="{1, 2}", Sizes="{1, 2}", MaxSlots=3, MaxBytes=5, LiveSizes="{1}", ResetOnEmpty="TRUE"),
     "offn-q": dict(Mode='"off"', Seqs="{1, 2}", Sizes="{1, 2}", MaxSlots=3, MaxBytes=5, LiveSizes="{1}", ResetOnEmpty="FALSE"),
     "seq-m": dict(Mode='"seq"', Seqs="{1, 2, 3, 4}", Sizes="{1, 2}", MaxSlots=2, MaxBytes=5, LiveSizes="{1}", ResetOnEmpty="TRUE"),
     "seq-d": dict(Mode='"seq"', Seqs="{1, 2, 3, 4}", Sizes="{1, 2}", MaxSlots=3, MaxBytes=6, LiveSizes="{1, 2}", ResetOnEmpty="TRUE"),
-    "seq-r": dict(Mode='"seq"', Seqs="{1, 2, 3, 4, 5, 6}", Sizes="{1, 2, 3}", MaxSlots=4, MaxBytes=16, LiveSizes="{1, 2}", ResetOnEmpty="TRUE"),
-    "seq-r2": dict(Mode='"seq"', Seqs="{1, 2, 3, 4, 5, 6, 7, 8}", Sizes="{1, 2, 3}", MaxSlots=6, MaxBytes=24, LiveSizes="{1, 2}", ResetOnEmpty="TRUE"),
+    "seq-r": dict(Mode='"seq"', Seqs="{1, 2, 3, 4, 5, 6}", Sizes="{1, 2, 3}", MaxSlots=4, MaxBytes=9, LiveSizes="{1, 2}", ResetOnEmpty="TRUE"),
+    "seq-r3": dict(Mode='"seq"', Seqs="{1, 2, 3, 4, 5, 6}", Sizes="{1, 2, 3}", MaxSlots=3, MaxBytes=16, LiveSizes="{1, 2}", ResetOnEmpty="TRUE"),
+    "seq-r2": dict(Mode='"seq"', Seqs="{1, 2, 3, 4, 5, 6, 7, 8}", Sizes="{1, 2, 3}", MaxSlots=6, MaxBytes=12, LiveSizes="{1, 2}", ResetOnEmpty="TRUE"),
     "off-r": dict(Mode='"off"', Seqs="{1, 2, 3, 4, 5, 6}", Sizes="{1, 2, 3}", MaxSlots=6, MaxBytes=12, LiveSizes="{1, 2}", ResetOnEmpty="FALSE"),
 }
 
@@ -43,8 +45,9 @@ def _validate(ck, sw, name, beh, label, scale=1):
     ck.cov["traces_validated_against_impl"] += summ["scenarios"] - len({b[0] for b in bads})
     ck.cov.setdefault("events_validated", 0)
     ck.cov["events_validated"] += summ["events"]
-    ck.cov.setdefault("push_errors_within_both_limits", 0)
-    ck.cov["push_errors_within_both_limits"] += (summ.get("notes") or {}).get("push_errors_within_both_limits", 0)
+    oc = ck.cov.setdefault("outcomes", {})      # vacuity control: which branches the replayed histories reached
+    for k, v in ((summ.get("notes") or {}).get("outcomes") or {}).items():
+        oc[k] = oc.get(k, 0) + v
     if summ["drift"]:
         ck.cov["impl_drift"].append({"run": label, "steps_differing_from_model": summ["drift"],
                                      "first": summ.get("first_drift")})
@@ -121,16 +124,24 @@ def run(ck):
         _validate(ck, sw, name, beh, "random histories, %s, %d steps, %d bytes per token" % (bound, hist, scale), scale)
 
     if quick:
-        jobs = [(cover, ("seq-s",)), (cover, ("off-q",)), (cover, ("offn-q",)),
-                (sim, (1, "seq-r", 600, 80)), (sim, (2, "seq-r2", 400, 120, 50)), (sim, (3, "off-r", 300, 80))]
+        # seq-s: the slot limit binds; seq-b: the byte limit binds (and is not shadowed by the offsetter's index check)
+        jobs = [(cover, ("seq-s",)), (cover, ("seq-b",)), (cover, ("off-q",)), (cover, ("offn-q",)),
+                (sim, (1, "seq-r", 500, 80)), (sim, (2, "seq-r2", 300, 120, 50)), (sim, (3, "off-r", 300, 80)),
+                (sim, (4, "seq-r3", 300, 80))]
     else:
-        jobs = [(strict, ("seq-d",)), (cover, ("seq-m",)), (cover, ("off-s",)), (cover, ("offn-s",)),
+        jobs = [(strict, ("seq-d",)), (cover, ("seq-m",)), (cover, ("seq-b",)), (cover, ("off-s",)), (cover, ("offn-s",)),
                 (sim, (1, "seq-r", 30000, 100)), (sim, (2, "seq-r2", 20000, 200, 50)), (sim, (3, "off-r", 20000, 100)),
-                (sim, (4, "seq-d", 20000, 60, 7))]
+                (sim, (4, "seq-r3", 20000, 100)), (sim, (5, "seq-d", 20000, 60, 7))]
     with ThreadPoolExecutor(max_workers=3 if quick else 4) as ex:
         futs = [ex.submit(f, *a) for f, a in jobs]
         for f in futs:
             f.result()
+    # vacuity control: the replayed histories must have reached every branch the statement talks about
+    need = ["push_ok", "push_duplicate_refused", "push_error_byte_limit_only", "push_error_slot_limit_only",
+            "pop_ok", "pop_absent", "pop_ok_at_shifted_index", "pop_ok_with_bytes_behind_save_area", "pop_ok_draining"]
+    missing = [k for k in need if not ck.cov.get("outcomes", {}).get(k)]
+    if missing:
+        ck.inconclusive.append("replayed histories never reached: " + ", ".join(missing))
     ck.cov["tlc_runs"].sort(key=lambda r: (r["name"], str(r["constants"].get("Mode")), str(r["constants"].get("Seqs"))))
     ck.cov["model_findings"] = sorted(set(ck.cov["model_findings"]) | model_findings)
     ck.cov["exhaustive"] = True
